@@ -17,7 +17,7 @@ class PreludeMixin:
                 'float', 'bool', 'isinstance', 'all', 'any', 'zip', 'enumerate', 'reversed', 'sum', 'abs', 'round',
                 'getattr', 'pow', 'iter', 'next', 'type', 'repr', 'print', 'frozenset', 'hasattr'}
     SPEC_BUILTINS = {'vec_le', 'vec_ge', 'vec_lt', 'vec_eq', 'vec_zero', 'dom', 'is_none', 'to_real', 'length',
-                     'keys_subset', 'str_to_int', 'alive', 'in_prefix', 'name_of', 'str_of', 'clock_now', 'eps', 'rdiv', 'is_int', 'ext', 'fs_kind', 'fs_target', 'path', 'dict_put', 'dict_del', 'set_put', 'set_del', 'counter_inc', 'is_digits', 'select', 'strlen', 'cls_is', 'distinct_list'}
+                     'keys_subset', 'str_to_int', 'alive', 'in_prefix', 'name_of', 'str_of', 'clock_now', 'eps', 'rdiv', 'is_int', 'ext', 'fs_kind', 'fs_target', 'path', 'fs_content', 'fs_ctime', 'yaml_of', 'zk_path', 'dict_update_opt', 'dict_put', 'dict_del', 'set_put', 'set_del', 'counter_inc', 'is_digits', 'select', 'strlen', 'cls_is', 'distinct_list'}
     LIB_CONSTS = {'errno.ENOENT': 2, 'errno.EEXIST': 17, 'errno.EINVAL': 22, 'sys.maxsize': 9223372036854775807, 'np.inf': INF, 'numpy.inf': INF, 'math.inf': INF}
     LIB_MODULES_ALIAS = {}
     LIB_MODULES = {'six.moves', 'os.path', 'six.moves.urllib', 'np.random'}
@@ -233,6 +233,8 @@ class PreludeMixin:
         """[f(x) for x in xs if c(x)] over a symbolic sequence.
         Without filter: result[j] == f(xs[j]).  With filter: an order-preserving
         sub-sequence characterised by ghost index maps."""
+        if mode == 'set':
+            return self.comp_symbolic_set(e, g, st, fr, it)
         if mode != 'list':
             raise CheckerError('symbolic %s comprehension' % mode)
         n, get = self.as_sequence(st, fr, it)
@@ -260,8 +262,10 @@ class PreludeMixin:
         if not conds:
             st.assume(m == n)
             for ra, t in zip(res.t[1:], elt.t):
-                st.assume(z3.ForAll([j], z3.Implies(z3.And(j >= 0, j < n), z3.Select(ra, j) == t),
-                                    patterns=[z3.Select(ra, j)]))
+                pats = [z3.Select(ra, j)]
+                if z3.is_select(t) and t.arg(1).eq(j):
+                    pats.append(t)          # the source element triggers the equation too
+                st.assume(z3.ForAll([j], z3.Implies(z3.And(j >= 0, j < n), z3.Select(ra, j) == t), patterns=pats))
             return res
         cond = asz(zand(*conds))
         src = z3.Function(fresh_name('src'), I, I)     # result index -> source index
@@ -278,6 +282,39 @@ class PreludeMixin:
                             patterns=[pos(j)] + ([item.t[0]] if isinstance(item, SVal) and z3.is_select(item.t[0]) else [])))
         q = z3.Int(fresh_name('q'))
         st.assume(z3.ForAll([p, q], z3.Implies(z3.And(p >= 0, p < q, q < m), src(p) < src(q)), patterns=[z3.MultiPattern(src(p), src(q))]))
+        return res
+
+    def comp_symbolic_set(self, e, g, st, fr, it):
+        """{f(x) for x in xs} over a symbolic sequence (no filter): S with  f(xs[j]) in S  for every j, and a
+        witness index for every member of S."""
+        if g.ifs:
+            raise CheckerError('filtered symbolic set comprehension')
+        n, get = self.as_sequence(st, fr, it)
+        j = z3.Int(fresh_name('cj'))
+        saved = fr.bound
+        fr.bound = dict(fr.bound)
+        was_spec = fr.spec
+        fr.spec = True
+        b = self.push_binder([j])
+        try:
+            item = get(st, j)
+            self.bind_pattern(fr.bound, g.target, item)
+            elt = lift(self.ev1(e.elt, st, fr))
+            self.flush_axioms(st)
+        finally:
+            fr.bound = saved
+            fr.spec = was_spec
+            self.close_binder(st, b, z3.And(j >= 0, j < n))
+        from core import KSet
+        res = fresh_val(KSet(elt.kind), 'setcomp')
+        dom = res.t[0]
+        st.assume(z3.ForAll([j], z3.Implies(z3.And(j >= 0, j < n), z3.Select(dom, elt.z)),
+                            patterns=[elt.z] if z3.is_app(elt.z) and elt.z.num_args() > 0 else [z3.Select(dom, elt.z)]))
+        wit = z3.Function(fresh_name('wit'), elt.z.sort(), I)
+        x = z3.Const(fresh_name('sx'), elt.z.sort())
+        st.assume(z3.ForAll([x], z3.Implies(z3.Select(dom, x),
+                                            z3.And(wit(x) >= 0, wit(x) < n, z3.substitute(elt.z, (j, wit(x))) == x)),
+                            patterns=[z3.Select(dom, x)]))
         return res
 
     def call_on_comprehension(self, e, st, fr):
@@ -431,6 +468,16 @@ class PreludeMixin:
                 if isinstance(other, LocalDict) and not other.d:
                     return [(st, None, recv)]
                 ko = ops.kind_of(other)
+                if isinstance(ko, KOpt) and isinstance(ko.inner, KDict):
+                    # d.update(None) raises TypeError
+                    tt, ff = self.fork(st, z3.Not(other.t[0]))
+                    outs = []
+                    if ff is not None:
+                        outs.append((ff, ExcVal('TypeError'), None))
+                    if tt is not None:
+                        inner = SVal(ko.inner, other.t[1:])
+                        outs.append((tt, None, self.dict_update(tt, recv, ops.coerce(inner, k) if ko.inner != k else inner)))
+                    return outs
                 if isinstance(ko, KDict):
                     return [(st, None, self.dict_update(st, recv, ops.coerce(other, k) if ko != k else other))]
             if meth == 'pop':
@@ -447,7 +494,13 @@ class PreludeMixin:
                 return outs
             if meth == 'copy':
                 return [(st, recv, None)]
+            if meth == 'clear':
+                e = ops.empty_of(k)
+                self.fold_empty(st, e)
+                return [(st, None, e)]
         if isinstance(k, KSet):
+            if meth == 'clear':
+                return [(st, None, ops.empty_of(k))]
             if meth == 'add':
                 return [(st, None, ops.set_add(recv, args[0]))]
             if meth == 'discard':
@@ -479,6 +532,8 @@ class PreludeMixin:
             if meth == 'copy':
                 return [(st, recv, None)]
         if isinstance(k, KCounter):
+            if meth == 'clear':
+                return [(st, None, ops.empty_of(k))]
             if meth in ('update', 'subtract'):
                 sign = 1 if meth == 'update' else -1
                 other = args[0]
@@ -494,6 +549,9 @@ class PreludeMixin:
                     st.assume(z3.ForAll([kk], z3.Select(res.t[0], kk) == z3.Select(recv.t[0], kk) + sign * z3.Select(other.t[0], kk),
                                         patterns=[z3.Select(res.t[0], kk)]))
                     return [(st, None, res)]
+        if k == KName and meth in ('index', 'find'):
+            f = self.recfuncs.setdefault('$name_index', z3.Function('name_index', I, I, I))
+            return [(st, SI(f(recv.z, lift(args[0], KName).z)), None)]
         if k == KStr or isinstance(recv, str):
             return [(s, r, None) for s, r in self.str_method(st, fr, recv, meth, args, kwargs)]
         if isinstance(k, KVec) and meth == 'copy':
@@ -504,7 +562,13 @@ class PreludeMixin:
 
     def dict_update(self, st, d, other):
         k = d.kind
-        res = fresh_val(k, 'upd')
+        # the result is a *function* of the two operands (same operands => same term), defined pointwise
+        argz = list(d.t) + list(other.t)
+        key = ('$dict_update', repr(k), tuple(str(a.sort()) for a in argz))
+        if key not in self.recfuncs:
+            self.recfuncs[key] = [z3.Function('dict_upd%d_%s' % (i, ''.join(ch for ch in repr(k) if ch.isalnum())),
+                                              *([a.sort() for a in argz] + [s_])) for i, s_ in enumerate(k.sorts())]
+        res = SVal(k, [F(*argz) for F in self.recfuncs[key]])
         kk = z3.Const(fresh_name('k'), k.sorts()[0].domain())
         inb = z3.Select(other.t[0], kk)
         st.assume(z3.ForAll([kk], z3.Select(res.t[0], kk) == z3.Or(z3.Select(d.t[0], kk), inb), patterns=[z3.Select(res.t[0], kk)]))
@@ -605,7 +669,7 @@ class PreludeMixin:
             return [(st, self.spec_builtin(st, fr, q[5:], args))]
         if q.startswith('opaque.'):
             self.stats['deps_used'].add(q)
-            return [(st, SVal(KStr, [z3.String(fresh_name('opaque'))]))]
+            return [(st, self.opaque_term(q, list(args) + [kwargs[k_] for k_ in sorted(kwargs)]))]
         if q.startswith('zfunc.'):
             f, rk = fv.py
             return [(st, SVal(rk, [f(*[lift(a).z for a in args])]))]
@@ -631,6 +695,21 @@ class PreludeMixin:
         if isinstance(r, list):
             return r
         return [(st, r)]
+
+    def opaque_term(self, q, args):
+        """A pure string builder (registered with opaque()): an uninterpreted function of its arguments."""
+        zs = []
+        for a in args:
+            a = lift(a)
+            if isinstance(a, SVal):
+                zs += list(a.t)
+        if not zs:
+            return SVal(KStr, [z3.StringVal('opaque_' + q.replace('.', '_'))])
+        key = ('$opaque', q, tuple(str(z_.sort()) for z_ in zs))
+        if key not in self.recfuncs:
+            self.recfuncs[key] = z3.Function('opaque_' + q.replace('.', '_') + '_%d' % len(zs),
+                                             *([z_.sort() for z_ in zs] + [z3.StringSort()]))
+        return SVal(KStr, [self.recfuncs[key](*zs)])
 
     def apply_lib_contract(self, st, fr, c, args, kwargs):
         params = c.types.get('$params', [])
@@ -884,6 +963,20 @@ class PreludeMixin:
             return res
         if isinstance(k, KDict):
             return SVal(KSet(k.key), [v.t[0]])
+        if isinstance(k, KList) and len(k.elem.sorts()) == 1:
+            # set(list): x in S <=> x == L[j] for some j (witness index function)
+            res = fresh_val(KSet(k.elem), 'lset')
+            dom = res.t[0]
+            n, arr = v.t[0], v.t[1]
+            j = z3.Int(fresh_name('j'))
+            st.assume(z3.ForAll([j], z3.Implies(z3.And(j >= 0, j < n), z3.Select(dom, z3.Select(arr, j))),
+                                patterns=[z3.Select(arr, j)]))
+            wit = z3.Function(fresh_name('wit'), arr.sort().range(), I)
+            x = z3.Const(fresh_name('sx'), arr.sort().range())
+            st.assume(z3.ForAll([x], z3.Implies(z3.Select(dom, x), z3.And(wit(x) >= 0, wit(x) < n,
+                                                                         z3.Select(arr, wit(x)) == x)),
+                                patterns=[z3.Select(dom, x)]))
+            return res
         raise CheckerError('set(...) of %r' % (v,))
 
     def b_reversed(self, st, fr, args, kw):
@@ -1070,6 +1163,8 @@ class PreludeMixin:
             return SB(self.is_digits(lift(args[0], KStr).z))
         if name == 'dict_put':
             d, k, v = args
+            if isinstance(d.kind, KOpt):
+                d = SVal(d.kind.inner, d.t[1:])        # total in specs (guarded by `is not None` there)
             new = ops.dict_set(d, k, self.coerce_to(st, v, d.kind.val))
             self.fold_update(st, fr, d, new, k, self.coerce_to(st, v, d.kind.val))
             return new
@@ -1084,7 +1179,25 @@ class PreludeMixin:
             return ops.set_discard(args[0], args[1])
         if name == 'counter_inc':
             return ops.counter_add(args[0], args[1], lift(args[2], KInt).z)
-        if name in ('fs_kind', 'fs_target', 'path'):
+        if name == 'zk_path':
+            # the term treadmill.zknamespace.path.<kind>(...) evaluates to in the code under contract
+            return self.opaque_term('opaque.treadmill.zknamespace.path.' + args[0], list(args[1:]))
+        if name == 'yaml_of':
+            # the serialisation of a JSON-like object: an (injective-agnostic) function of the dict value
+            d = lift(args[0])
+            if isinstance(d.kind, KOpt):
+                d = SVal(d.kind.inner, d.t[1:])
+            key = ('$yaml_of', tuple(str(t_.sort()) for t_ in d.t))
+            if key not in self.recfuncs:
+                self.recfuncs[key] = z3.Function('yaml_of', *([t_.sort() for t_ in d.t] + [I]))
+            return SI(self.recfuncs[key](*d.t))
+        if name == 'dict_update_opt':
+            base, other = lift(args[0]), lift(args[1])
+            if isinstance(base.kind, KOpt):
+                base = SVal(base.kind.inner, base.t[1:])
+            upd = self.dict_update(st, base, SVal(other.kind.inner, other.t[1:]))
+            return ops.ite(other.t[0], base, upd)
+        if name in ('fs_kind', 'fs_target', 'path', 'fs_content', 'fs_ctime'):
             return self.fs_spec(st, name, args)
         if name == 'ext':
             return SVal(KExtReal, [asz(truthy(args[0])), ops.coerce(lift(args[1]), KReal).z])
